@@ -605,7 +605,17 @@ pub fn stockfish_stub() {
             if m.promo.is_some() && m.promo != Some(P::Queen) {
                 *counts.entry("peer-replied-underpromotion").or_insert(0) += 1;
             }
-            println!("info depth 1 seldepth 1 multipv 1 score cp 17 nodes 20 nps 20000 time 1 pv {}", m.uci());
+            // legitimate engine chatter of several shapes before the answer
+            match rng.below(4) {
+                0 => println!("info depth 1 seldepth 1 multipv 1 score cp 17 nodes 20 nps 20000 time 1 pv {}", m.uci()),
+                1 => {
+                    println!("info depth 2 currmove {} currmovenumber 1", m.uci());
+                    println!("info depth 3 seldepth 5 multipv 1 score mate 3 nodes 412 nps 41200 time 10 pv {}", m.uci());
+                    *counts.entry("fault/mate-score-chatter").or_insert(0) += 1;
+                }
+                2 => println!("info depth 4 score cp -31 upperbound nodes 1200 pv {}", m.uci()),
+                _ => println!("info depth 1 score mate -2 pv {}", m.uci()),
+            }
             println!("info string bestmove is below");
             if rng.chance(1, 3) {
                 let next = announced.make(&m);
